@@ -379,6 +379,22 @@ Definition collect_selected (st : state) (names : list name) : dict val * list n
                       | None => [] end) names,
    List.filter (fun k => match vals st !! k with None => true | Some _ => false end) names).
 
+(* _handle_missing_outputs: what on_missing does with a selected name that is not in the state at all *)
+Inductive missing_policy := MIgnore | MWarn | MError.
+Inductive select_outcome :=
+| SelOk (values : dict val)                          (* returned quietly *)
+| SelWarn (values : dict val) (missing : list name)  (* returned, with a warning naming the missing outputs *)
+| SelError (missing : list name).                    (* ValueError("Requested outputs not found") *)
+
+Definition select_outputs (pol : missing_policy) (st : state) (names : list name) : select_outcome :=
+  let (values, missing) := collect_selected st names in
+  match missing, pol with
+  | [], _ => SelOk (dupdate [] values)
+  | _, MIgnore => SelOk (dupdate [] values)
+  | _, MWarn => SelWarn (dupdate [] values) missing
+  | _, MError => SelError missing
+  end.
+
 Definition filter_outputs (g : graph) (st : state) (sel : option (list name)) : dict val :=
   match sel with
   | None => collect_all g st
